@@ -117,7 +117,7 @@ impl WhereClauseBuilder {
                 continue;
             }
             seen.push(key);
-            ws.push(f(&ref_target(ty)));
+            ws.push(f(&with_explicit_unit_return(ref_target(ty))));
         }
         for p in self.preds {
             ws.push(quote!(#p));
@@ -128,4 +128,19 @@ impl WhereClauseBuilder {
             quote!(where #(#ws,)*)
         }
     }
+}
+
+/// `fn(T)` -> `fn(T) -> ()`: in `&'a fn(T): Trait` rustc takes the `:` for a mistyped `->`.
+fn with_explicit_unit_return(mut ty: Type) -> Type {
+    struct V;
+    impl syn::visit_mut::VisitMut for V {
+        fn visit_type_bare_fn_mut(&mut self, i: &mut syn::TypeBareFn) {
+            if let syn::ReturnType::Default = i.output {
+                i.output = syn::parse_quote!(-> ());
+            }
+            syn::visit_mut::visit_type_bare_fn_mut(self, i);
+        }
+    }
+    syn::visit_mut::VisitMut::visit_type_mut(&mut V, &mut ty);
+    ty
 }
